@@ -81,6 +81,12 @@ PROPS["C16"] = P(["provider"],
     "Trusted: " + TB_COMMON + " env/cln_pay.rs (pay status semantics; a pay RPC that has returned creates no further parts); wait_payment enters under its interface contract (C15).",
     assumptions=A_WORLD + ["a pay command that has returned (result or RPC error) creates no further parts"])
 
+PROPS["C19"] = P(["config", "provider"],
+    "Proof (Verus) on the E6 slice of main() that converts and validates the options (src/main.rs, from the first cp.option(..) to the mpp_timeout conversion): it refuses to start iff a value is out of its target range or policy delta <= safety delta; otherwise safety delta, advertised/enforced policy, MPP timeout, self-route-hint flag, payment timeout and xpay equal the configured values (options are distinct opaque tokens, so a swapped option is a failed obligation). PayPaymentProvider::new caps the retry time at 65535 s.",
+    "Trusted: " + TB_COMMON + " env/config_env.rs (ConfiguredPlugin::option returns the value CLN delivered: uninterpreted cfg_*; E11: option descriptors become opaque distinct tokens, name/default/description dropped). The statements of main() that thread the converted values into HtlcManagerParams / PayPaymentProvider::new (struct literal with field-init shorthand) are not under contract.",
+    assumptions=["CLN delivers the option values (handle_init) as configured"],
+    not_covered=["the wiring statements after the slice (HtlcManagerParams literal, PayPaymentProvider::new call)"])
+
 PROPS["C20"] = P(["height"],
     "Proof (Verus): update_height leaves the shared cell at max(value found under the lock, new height) = the maximum of all heights told so far, never lower than before; new_block, poll_height and current_height reach the cell only through update_height / a read under the same mutex. Holds under every interleaving because the update is one critical section and every other updater guarantees the same postcondition. The catch-up bound is not applicable.",
     "Trusted: " + TB_COMMON + " env/height_env.rs (tokio Mutex<u32>: exclusive access; other holders only run update_height). NOT APPLICABLE clause: 'catches up within one poll interval' (timer liveness).",
